@@ -328,7 +328,14 @@ def run_case(case: dict) -> CaseResult:
                 stats["sessions"] += 1
                 env.tcp_script = [{"ok": ("ok", 4 * D), "refuse": ("refuse", 2 * D), "hang": ("hang",)}[step.get("tcp", "ok")]]
                 set_device(step.get("dev"))
-                apply(await run_calls("start", cli.start_connection(on_stop), step.get("interfere")), "start")
+                env.sock_fault = step.get("sock_fault")  # e.g. the peer reset the fresh connection: getpeername() fails
+                order = await run_calls("start", cli.start_connection(on_stop), step.get("interfere"))
+                if env.sock_fault:
+                    classes.add("socket_setup_fault")
+                    if any(n.startswith("start") and st2 == "ok" for n, st2, _ in order) and env.sock_fault == "getpeername":
+                        viol.append(V("c19:start-succeeded-on-dead-socket", f"step {i}"))
+                env.sock_fault = None
+                apply(order, "start")
             elif op == "finish":
                 if st_ != "STARTED":
                     stats["skipped"] += 1
@@ -351,6 +358,21 @@ def run_case(case: dict) -> CaseResult:
                 order = await run_calls("connect", cli.connect(on_stop=on_stop, login=bool(step.get("login", True))), step.get("interfere"))
                 rejected(order, step, "connect", i)
                 apply(order, "connect")
+            elif op == "disc_cancel":
+                # graceful disconnect() on a live session; the device does not answer; the caller gives up after 1 s:
+                # the session is still alive afterwards
+                if st_ != "CONNECTED":
+                    stats["skipped"] += 1
+                    continue
+                classes.add("disconnect_cancelled_on_live_session")
+                dev.auto = set()
+                dn = f"dc-live#{len(env.tasks)}"
+                d = env.spawn(dn, cli.disconnect())
+                await asyncio.sleep(1.0)
+                if not d.done():
+                    env.cancel(dn)
+                await settle()
+                continue
             elif op == "disconnect":
                 if st_ != "CONNECTED":
                     classes.add("close_before_connected")
@@ -466,6 +488,9 @@ def _case(draw, tier):
                 itf = draw(INTERFERE)
                 steps.append({"op": "start", "tcp": tcp, "interfere": itf})
                 s = "STARTED" if tcp == "ok" and (not itf or itf["what"] == "probe") else "IDLE"
+                if tcp == "ok" and not itf and draw(st.integers(0, 5)) == 3:
+                    steps[-1]["sock_fault"] = draw(st.sampled_from(["getpeername", "setblocking", "nodelay"]))
+                    s = "IDLE"
             elif r <= 8:
                 tcp = draw(st.sampled_from(["ok", "ok", "ok", "refuse"]))
                 devb = draw(DEVB)
@@ -491,6 +516,9 @@ def _case(draw, tier):
         else:
             if r <= 3:
                 steps.append({"op": "disconnect", "force": draw(st.booleans())})
+            elif r == 4 and draw(st.booleans()):
+                steps.append({"op": "disc_cancel"})
+                continue
             else:
                 steps.append({"op": "dev", "what": draw(st.sampled_from(["eof", "reset", "garbage", "discreq", "pingtimeout", "resp+discreq", "resp+garbage", "resp+eof"]))})
             s = "IDLE"
@@ -513,7 +541,18 @@ def _disccancel_cases():
                 yield {"noise": noise, "keepalive": 2.0, "rot": at, "steps": [first, {"op": "disconnect", "force": True}] + second}
 
 
+def _late_cases():
+    second = [{"op": "connect", "tcp": "ok", "dev": None, "login": True, "interfere": None}, {"op": "disconnect", "force": False}]
+    for noise in (False, True):
+        for f in ("getpeername", "setblocking", "nodelay"):
+            yield {"noise": noise, "keepalive": 2.0, "rot": 3, "steps": [{"op": "start", "tcp": "ok", "interfere": None, "sock_fault": f}] + second}
+        for what in ("eof", "reset", "discreq", "pingtimeout", "garbage"):
+            yield {"noise": noise, "keepalive": 2.0, "rot": 5, "steps": [second[0], {"op": "disc_cancel"}, {"op": "dev", "what": what}] + second}
+        yield {"noise": noise, "keepalive": 2.0, "rot": 6, "steps": [second[0], {"op": "disc_cancel"}, {"op": "disconnect", "force": True}] + second}
+
+
 def enumerated(tier):
+    yield from _late_cases()
     yield from _disccancel_cases()
     # disconnect (force / graceful) at every stage, followed by a complete second session
     second = [{"op": "connect", "tcp": "ok", "dev": None, "login": True, "interfere": None}, {"op": "disconnect", "force": False}]
